@@ -71,26 +71,31 @@ def ranges(run, repo):
     # (prefix parts, offsets in input order (duplicates allowed), digits of the printed suffix)
     offs = [[0], [3, 1, 2], [5, 7, 6, 9], [2, 2, 3], [10, 1, 2, 12, 11, 4], [0, 1, 3, 4, 6]]
     prefixes = [[('r', 1)], [('rxn', 3)], [], [('a', 1), ('b', 2)]]
-    for pre, off, digits in itertools.product(prefixes, offs, (4, 5)):
+    combos = [(pre, off, digits, '_') for pre, off, digits in itertools.product(prefixes, offs, (4, 5))]
+    # a delimiter other than the default: the ids must come back with the delimiter they were given
+    combos += [(pre, off, 4, dl) for pre, off, dl in itertools.product(prefixes[1:], offs[:3], ('-', '.'))]
+    for pre, off, digits, delim in combos:
         for mixed in (False, True):
             I = Interp(repo, max_depth=10)
             D = I.D
             base = D.sym('N')
             ids = []
             for o in off:
-                ids.append(make_id(I, pre, base, o, digits))
+                ids.append(make_id(I, pre, base, o, digits, delim))
             if mixed:
                 # a second prefix interleaved
                 base2 = D.sym('M')
-                extra = [make_id(I, [('zz', 2)], base2, o, digits) for o in (1, 2, 5)]
+                extra = [make_id(I, [('zz', 2)], base2, o, digits, delim) for o in (1, 2, 5)]
                 ids = [x for pair in itertools.zip_longest(ids, extra) for x in pair if x is not None]
-            label = 'prefix=%s suffix offsets=%s digits=%d%s' % ('_'.join(p[0] for p in pre) or '(none)', off, digits,
-                                                                ' +second prefix' if mixed else '')
+            label = 'prefix=%s suffix offsets=%s digits=%d%s%s' % (
+                delim.join(p[0] for p in pre) or '(none)', off, digits, ' +second prefix' if mixed else '',
+                '' if delim == '_' else ' delimiter=%r' % delim)
+            dkw = {} if delim == '_' else {'delimiter': delim}
             objs_variants = [('strings', ListV([i[0] for i in ids])),
                              ('objects with id', ListV([Obj('o%d' % k, attrs={'id': i[0]}) for k, i in enumerate(ids)]))]
             for oname, objs in objs_variants:
-                lst = I.call_function(m, fn, [], {'objs': objs, 'format': 'list'})
-                st = I.call_function(m, fn, [], {'objs': objs})
+                lst = I.call_function(m, fn, [], dict({'objs': objs, 'format': 'list'}, **dkw))
+                st = I.call_function(m, fn, [], dict({'objs': objs}, **dkw))
                 n += 1
                 if isinstance(lst, Raised) or isinstance(st, Raised):
                     run.fail('REF.range', 'cantera._get_omkm_range', 'raises', '[%s, %s] raises %s'
